@@ -9,6 +9,12 @@ for d in sorted(glob.glob(os.path.join(ROOT, "seeded", "C*-*")), key=lambda p: (
         m = json.load(open(os.path.join(d, "meta.json")))
     except Exception:
         m = {}
+        # not yet confirmed: fall back to the author's meta.json in the intake directory
+        try:
+            pid, n = name.split("-")
+            m = next(x for x in json.load(open(f"/tmp/seed-{pid}-out/meta.json")) if str(x.get("change")) == n)
+        except Exception:
+            pass
     det = {}
     lp = os.path.join(d, "detect.log")
     if os.path.exists(lp):
@@ -32,4 +38,4 @@ for name, summ, needs, det, suite, demo, rnd in rows:
         return (s[:n] + "…") if len(s) > n else s
     dets = "; ".join(f"{c}: {'/'.join(v)}" for c, v in det.items()) or "—"
     sc = "yes" if ("0 failed" in suite and "exit=0 demo_with_change_exit=101" in demo.replace("demo_without_change_", "")) else (ab(suite + " " + demo, 60) or "pending")
-    print(f"| {name}{' (r2)' if rnd == 2 else ''} | {ab(summ, 170)} | {ab(needs, 150)} | {dets} | {sc} |")
+    print(f"| {name}{' (r%d)' % rnd if rnd and rnd != 1 else ''} | {ab(summ, 170)} | {ab(needs, 150)} | {dets} | {sc} |")
